@@ -19,7 +19,7 @@ for p in props:
         na.append(dict(property_id=pid, reason=getattr(
             m, 'NOT_APPLICABLE', None) or 'no check built yet for this '
             'property in this family (contract-based deductive verification);'
-            ' see DESIGN.md section 4 for the plan'))
+            ' see DESIGN.md section 5'))
         continue
     checks.append(dict(
         property_id=pid,
@@ -30,7 +30,7 @@ for p in props:
         engine='pyvc',
         level_claimed=dict(category=getattr(m, 'LEVEL', 'proof'),
                            text=m.LEVEL_TEXT,
-                           design_ref='DESIGN.md section 4, %s' % pid),
+                           design_ref='DESIGN.md section 5, %s' % pid),
         level_note=m.LEVEL_NOTE,
         technique=m.TECHNIQUE))
 man = dict(
